@@ -15,7 +15,8 @@ clean=$(git status --porcelain -- hmclab | wc -l)
 git apply --check /tmp/seedtasks/$ID.patch && git apply /tmp/seedtasks/$ID.patch; rc_apply=$?
 files=$(git diff --name-only | tr '\n' ' ')
 /venv/bin/python _seed/demo.py > /tmp/seedtasks/$ID.demo_mut.out 2>&1; rc_mut=$?
-/venv/bin/python -m pytest -q -p no:cacheprovider --timeout=900 --continue-on-collection-errors --junitxml=/tmp/seedtasks/$ID.junit.xml > /tmp/seedtasks/$ID.pytest.out 2>&1
+# (a shell that starts this script in the background leaves SIGINT ignored, which Python inherits: tests/test_break.py relies on KeyboardInterrupt)
+/venv/bin/python -c "import signal, sys, runpy; signal.signal(signal.SIGINT, signal.default_int_handler); sys.argv = ['pytest', '-q', '-p', 'no:cacheprovider', '--timeout=900', '--continue-on-collection-errors', '--junitxml=/tmp/seedtasks/$ID.junit.xml']; runpy.run_module('pytest', run_name='__main__', alter_sys=True)" > /tmp/seedtasks/$ID.pytest.out 2>&1
 /venv/bin/python - "$ID" <<'PY' > /tmp/seedtasks/$ID.fail.txt
 import sys, xml.etree.ElementTree as ET
 t = ET.parse(f"/tmp/seedtasks/{sys.argv[1]}.junit.xml")
